@@ -348,7 +348,7 @@ theorem abs_getProj {t : Table} {n : Nat} (hr : t.Rect n) (ks : List String) :
       intro k hk
       rw [mem_dedupKeys] at hk
       rw [find?_reverse_map_key (k0 :: ks') t.getCol k hk]
-      simp only [Function.comp, Option.getD_some, abs_cols, lookup_row]
+      simp only [Option.getD_some, lookup_row]
     · rw [mapE_proj_err t ks hall, if_neg hall]
       rfl
 
@@ -372,7 +372,7 @@ theorem abs_relabel_any {t : Table} {n : Nat} (hr : t.Rect n) (r : Relabel) :
     intro i _
     apply List.map_congr_left
     intro k _
-    simp only [Function.comp, Recs.lookupLast]
+    simp only [Recs.lookupLast]
     have hz : (t.cols.map r.key).zip (t.row i) = t.map fun c => (r.key c.1, c.2.getD i .none) := by
       simp [cols, row, List.zip_map', List.map_map, Function.comp_def]
     rw [hz, ← List.map_reverse, ← List.map_reverse, List.find?_map, List.find?_map]
@@ -390,7 +390,7 @@ theorem abs_relabel_any {t : Table} {n : Nat} (hr : t.Rect n) (r : Relabel) :
 theorem abs_setFn {t : Table} {n : Nat} (hr : t.Rect n) (kf : String × Fn) :
     (t.setFn kf).map abs = (abs t).setFn kf := by
   unfold setFn Recs.setFn
-  rw [abs_applyFn hr]
+  rw [abs_applyFn t]
   cases (abs t).applyFn kf.2 with
   | error e => rfl
   | ok vs => exact abs_setitem hr kf.1 (.many vs)
